@@ -68,9 +68,7 @@ func checkC18(c *Ctx) {
 	// RANDSRC
 	c.randSrc(c.All, true)
 	if fx := c.Fixture(); fx != nil {
-		sub := newCtx("C18", "control")
-		sub.Fset = c.Fset
-		sub.All = fx
+		sub := c.subCtx(fx)
 		sub.randSrc(fx, false)
 		got := map[string]bool{}
 		for _, o := range sub.Obl {
